@@ -366,9 +366,25 @@ def check_formulas(prog, rep, m):
                 forms.append(a == Rat.sym('min') + wd and b == Rat.sym('max') + wd and c == wd)
             except (AnalysisIncomplete, KeyError):
                 forms.append(False)
-        elif t in ('min_data+width+da.arange(k)*width', '(min_data+width)+da.arange(k)*width',
-                   'min_data+width*(da.arange(k)+1)', 'min_data+(da.arange(k)+1)*width'):
-            forms.append(True)
+        elif any(isinstance(x, ast.Call) and short(x) == 'arange' for x in ast.walk(v)):
+            # an expression over arange(k) / arange(a, b): element i must be min + (i + 1) * width
+            import copy
+
+            class _Idx(ast.NodeTransformer):
+                def visit_Call(self, n):
+                    self.generic_visit(n)
+                    if short(n) == 'arange' and len(n.args) == 1 and not n.keywords:
+                        return ast.Name(id='__i', ctx=ast.Load())
+                    if short(n) == 'arange' and len(n.args) == 2 and not n.keywords:
+                        return ast.BinOp(left=n.args[0], op=ast.Add(), right=ast.Name(id='__i', ctx=ast.Load()))
+                    return n
+            try:
+                e2 = ast.fix_missing_locations(_Idx().visit(copy.deepcopy(v)))
+                sp.it.env['__i'] = Rat.sym('i')
+                got = sp.it.as_scalar(sp.it.ev(e2))
+                forms.append(got == Rat.sym('min') + (Rat.sym('i') + Rat.const(1)) * sp.it.env['width'])
+            except (AnalysisIncomplete, KeyError):
+                forms.append(False)
         elif t in ('cuts[0:k]', 'cuts[:k]'):
             continue
         else:
